@@ -4,17 +4,17 @@ import json, subprocess
 hooks = subprocess.check_output(['git','-C','/repo','log','--format=%H %s']).decode().splitlines()
 hook_commits = [l.split()[0] for l in hooks if l.split(' ',1)[1].startswith('verif:')]
 claimed = {
- "C03": ("exploration","hist","Seeded search over single-session histories (DDL incl. views/indexes/functions, INSERT, INSERT..SELECT, DELETE, simulated-time compaction+vacuum passes, 1-4 clean shutdown+reopen cycles) on the real on-disk engine with swarm-drawn storage options; after each reopen every table's definition (pg_attribute) and row multiset is compared with its state before shutdown, dropped tables must stay dropped, and post-reopen statements must be accepted. Evidence, not proof: thousands of distinct histories per run.","4"),
+ "C03": ("exploration","hist","Seeded search over single-session histories (DDL incl. views/indexes/functions, INSERT, INSERT..SELECT, DELETE, simulated-time compaction+vacuum passes, 1-4 clean shutdown+reopen cycles) on the real on-disk engine with swarm-drawn storage options; after each reopen every table's definition (pg_attribute) and row multiset is compared with its state before shutdown, dropped tables must stay dropped, and post-reopen statements must be accepted. Evidence, not proof: thousands of distinct histories per run. After each reopen the rows are also compared with the model of the acknowledged history (the property's quantifier); histories contain odd DDL (reserved column name, no columns, duplicate column, a table in pg_catalog) and multi-table DROPs.","4"),
  "C05": ("exploration","hist","Twin run: one seeded statement stream (incl. deliberately invalid statements) is driven into new_in_memory() and new_on_disk(knobs); the disk twin additionally gets simulated-time compaction passes and reopens. The stream includes joins on primary keys of all kinds (merge join on disk), semi/anti joins, GROUP BY / ORDER BY on keys, mixed integer key widths, table-constraint keys, SMALLINT/DECIMAL/DATE columns. After every statement Ok/Err and result multisets (sequences on ORDER BY keys) must agree.","4"),
  "C07": ("exploration","hist","Seeded histories over {INSERT batch, DELETE WHERE p, advance clock past the compactor timer, vacuum, reopen} with row-set sizes forcing several row-sets and partial compactions; after every step every table is compared with a multiset model, DELETE counts are checked, results across each compaction pass are compared, sorted storage scans are checked for key order.","4"),
  "C08": ("exploration","sched","Concurrent actors - 1-2 storage-level readers (open scan, fetch batches of seeded sizes), 2-3 writer sessions (INSERT, DELETE, DROP TABLE), the real compactor and vacuum tasks - run as tokio tasks on the single simulator thread and park at harness gates and guarded in-engine gates; a seeded scheduler releases exactly one parked actor or advances the simulated clock per decision after quiescence. Each reader's rows must equal the model state of the statements acknowledged before its pin plus some subset of those in flight around it; no reader call may fail; no row-set directory of the version a reader pinned (per the manifest at pin time) may be unlinked while it runs.","4"),
  "C09": ("exploration","sched","2-4 sessions issue INSERT / DELETE on 2-3 tables while compactor passes are parked and released at 'pass begin / table locked / selected / inputs opened / inputs read / before commit / committed' and commits at 'manifest locked / before append / after append'; after all actors finish, every table's multiset must be the result of some order of the acknowledged statements respecting session order (exhaustive search with memoisation, <= 14 statements), and must be unchanged by shutdown + reopen.","4"),
- "C10": ("exploration","sched","2-4 sessions x <= 4 statements from {CREATE TABLE / DROP TABLE incl. same names, INSERT VALUES, DELETE WHERE, SELECT count(*)} interleaved at statement, bind, pin, commit and DDL gates; oracles: no session or background task panics, no process abort, no deadlock (progress within 5 simulated seconds once gates are opened), existence of a total order of the acknowledged statements respecting session order that reproduces every SELECT result and the final state (histories that are only explained by statement-level snapshot isolation are classified separately), shutdown + reopen succeeds and shows the same state. Multi-threaded preemption inside a poll is not explored.","4"),
- "C12": ("exploration","hist","Seeded layout histories (several row-sets, DVs, compactions, reopen) with ORDER BY / LIMIT / OFFSET queries at query points, each checked against the engine's own unordered result: K-sorted, permutation, slice [m..m+n] on K, unordered LIMIT count and containment.","4"),
+ "C10": ("exploration","sched","2-4 sessions x <= 4 statements from {CREATE TABLE / DROP TABLE incl. same names, INSERT VALUES, DELETE WHERE, SELECT count(*)} interleaved at statement, bind, pin, commit and DDL gates; oracles: no session or background task panics, no process abort, no deadlock (progress within 5 simulated seconds once gates are opened), existence of a total order of the acknowledged statements respecting session order that reproduces every SELECT result and the final state (histories that are only explained by statement-level snapshot isolation are classified separately), shutdown + reopen succeeds and shows the same state. Multi-threaded preemption inside a poll is not explored. Since round 9-12: the row count a DELETE reports is a result the order must reproduce; a statement on a table nobody creates or drops must not fail because of DDL on other tables; one INSERT..SELECT per run (from another table, so rows stay unique) must become visible as a whole; the snapshot-isolation explanation covers DELETE and INSERT..SELECT.","4"),
+ "C12": ("exploration","hist","Seeded layout histories (several row-sets, DVs, compactions, reopen) with ORDER BY / LIMIT / OFFSET queries at query points, each checked against the engine's own unordered result: K-sorted, permutation, slice [m..m+n] on K, unordered LIMIT count and containment. Extra probes per ordered query: the key not in the select list, the key named by position (ORDER BY 1), explicit NULLS FIRST/LAST (honoured or refused), the cut spelled OFFSET m ROWS FETCH FIRST n ROWS ONLY, a filter above the LIMIT; one run in twelve uses a table of more than 1100 rows.","4"),
  "C04": ("fault_enumeration","crash","A seeded history is executed once on the real on-disk engine with every mutating syscall journalled at the libc boundary (so a removed or reordered fsync/write/rename is seen as the kernel would see it); crash images are then derived from the journal for crash indexes x torn lengths of the write in flight x durability model (everything issued / un-synced file tails cut or zero-filled / directory entries and renames not covered by an fsync of their directory lost) x one-level crash during recovery; each image is recovered with Database::new_on_disk and must equal the model of the acknowledged prefix with or without the statement in flight, accept new statements (insert, full or one-row delete, create) whose effect must survive one more reopen, and a second recovery must agree. Thorough enumerates every index and every byte of manifest writes.","4"),
  "C15": ("fault_enumeration","fault","For each statement under test (filtered scans, aggregates, ORDER BY/LIMIT, joins, INSERT VALUES, INSERT..SELECT, DELETE) a fault-free execution on a twin database records rows and per-operator item counts; then (operator, item index, error|panic) faults are injected through the guarded hook in the per-operator output loop, one per execution, and I/O faults (EIO, ENOSPC, EINTR, short transfer) on the n-th syscall of a given class and file; reads are faulted on a cold copy. One run in forty is a COPY FROM scenario (well-formed file / a field that fails to parse / a field whose parsing panics the reader thread, at the first, last, a chunk-edge or a random line): Err and an unchanged table, or Ok and every line; that run uses the real blocking pool (the reader blocks on the runtime), its verdict does not depend on thread timing. A statement in which a fault fired must not return Ok with different rows; a failed INSERT/DELETE must leave its table unchanged in the running instance and in a reopened copy of the directory; an acknowledged one must be durable.","4"),
  "C18": ("fault_enumeration","corrupt","A seeded database is built with CRC32 checksums (default_for_cli), then single at-rest corruptions of every .col/.idx file are enumerated (bit flip, byte overwrite, zero-filled sector, truncation at first/last/middle/trailer/footer/seeded positions) x read order (corrupt then open; open, cache, corrupt; open, corrupt, read; open, read and verify every block, corrupt, drop the block cache through a guarded hook = cache pressure, read again) x optional compaction pass over damaged data; with the compaction variant a row is inserted into every table first so that the damaged row-set is really merged; every table is read three times by SELECT *, then by count(*) and two single-column selects, and each read must fail or return exactly the original rows. A same-sized sibling file's content is one more corruption kind in the runs that do not steer around known findings.","4"),
- "C13": ("exploration","hist","Seeded layout histories on tables with a primary key of any type at any position, tiny blocks, with key-range queries at query points; each is compared with the same query under PRAGMA disable_optimizer (no pushdown), with the model, and at storage level scan(range) vs scan()+filter.","4"),
+ "C13": ("exploration","hist","Seeded layout histories on tables with a primary key of any type at any position, tiny blocks, with key-range queries at query points; each is compared with the same query under PRAGMA disable_optimizer (no pushdown), with the model, and at storage level scan(range) vs scan()+filter. Keys and bounds also sit at the ends of the key type's range; one run in ten writes without first keys and switches the option at every reopen; one run in twelve uses a table of more than 1100 rows.","4"),
 }
 tech = {
  "sched": "deterministic simulation: seeded scheduler over gated concurrent actors (sessions, readers, compactor, vacuum) on a paused clock, serial-order / snapshot checker against a reference model",
